@@ -132,7 +132,7 @@ def rule_pipe(ctx):
         steps = pipes[side]
         ops = []
         for conds, s, consts in steps:
-            cs = [c for c in dict.fromkeys(expand_locals(b["body"], s, flow.callees_in)) if c not in ("Iterator::map", "Iterator::collect", "IntoIterator::into_iter", "Compose::compose", "slice::concat", "<[V]>::concat", "Concat::concat")]
+            cs = [c for c in dict.fromkeys(flow.expand_helpers(fx, expand_locals(b["body"], s, flow.callees_in))) if c not in ("Iterator::map", "Iterator::collect", "IntoIterator::into_iter", "Compose::compose", "slice::concat", "<[V]>::concat", "Concat::concat")]
             ops.append((tuple(k for k, pol in conds if pol), cs, consts))
         gi = [i for i, (c, cs, k) in enumerate(ops) if "Gamma::gamma" in cs]
         ctx.add("FLOW-PIPE", "%s:gamma-once" % side, len(gi) == 1 and ops[gi[0]][0] == (), site, "gamma is applied exactly once, unconditionally: steps %s" % gi)
